@@ -871,15 +871,16 @@ def search_failing(ctx, broken):
 
 
 MANIFEST = {
-    'level_text': 'Proof (Coq, unbounded histories) of the generator side of the routing invariant for an executable model '
-                  'of HardwareSetup + DummyAWG/DummyDAC: under guard_C18_rewire (no re-wiring of a name used by a '
+    'level_text': 'Proof (Coq, unbounded histories incl. raising calls) of the routing invariant for an executable model of '
+                  'HardwareSetup + DummyAWG/DummyDAC: under guard_C18_rewire (no re-wiring of a name used by a '
                   'registered program) every AWG holds exactly the registered programs that use it, with the last '
-                  'registered program object and every channel id / voltage transformation at the wired output; '
-                  'participation records are exact; arm arms participants and disarms the other wired AWGs; removed / '
-                  'cleared programs are gone; the unguarded invariant is refuted by a 3-call witness (known finding '
-                  'C18-rewire-stale).  The acquisition-device (DAC / windows) side is stated '
-                  '(C18_routing_invariant_dac_statement) but NOT proved: it is only checked on the implementation.  Model '
-                  'tied to the code by a step-by-step correspondence check on the real objects after every call.',
+                  'registered program object and every channel id / voltage transformation at the wired output; every '
+                  'DAC holds exactly the programs with a measurement wired to it, exactly the wired masks, each with the '
+                  'program\'s own windows; participation records are exact; arm arms participating AWGs and DACs and '
+                  'disarms the other wired AWGs; removed / cleared programs are gone everywhere; devices are armed only '
+                  'with programs they hold.  The unguarded invariant is refuted by a 3-call witness (known finding '
+                  'C18-rewire-stale).  Model tied to the code by a step-by-step correspondence check on the real '
+                  'objects after every call.',
     'level_note': 'Trusted: Coq kernel, harness, DummyAWG/DummyDAC as stand-ins for real drivers, set/dict iteration '
                   'order inside register_program is an input of the model chosen to explain the observed outcome, '
                   'Loop.get_measurement_windows as the program\'s own windows.  Two defects of the unchanged code were '
